@@ -60,12 +60,17 @@ structure Fixes where
   d3 : Bool
   /-- D7: a UCOL expansion inside a workspace tests the `2*extra` bytes it takes -/
   d7 : Bool
-  /-- D10: an expansion that would not grow the array (`new_len <= *prev_len`) fails -/
+  /-- D10: the first attempt grows by at least one element and a reduced factor that no longer grows
+  the array (`new_len <= *prev_len`) is a failure -/
   d10 : Bool
 deriving Repr, DecidableEq, Inhabited
 
+/-- the pinned tree -/
 def asIs : Fixes := ⟨false, false, false⟩
+/-- every repair -/
 def fixed : Fixes := ⟨true, true, true⟩
+/-- /repo after the `fix:` commits ba17e55 (D3) and 1d60195 (D10); D7 still open -/
+def current : Fixes := ⟨true, false, true⟩
 
 /-! ### `(int_t)(alpha * prev_len)` with `float alpha = 1 + 2^-k` -/
 
@@ -198,19 +203,25 @@ allowed, alpha is currently `1 + 2^-k` and gave `nl` -/
 def userSearch (fx : Fixes) (s : St) (t : MemType) (prev lw : Int) : Nat → Nat → Int → Option Int
   | 0, _, nl => if s.full (needBytes fx t ((nl - prev) * lw)) then none else some nl
   | f+1, k, nl =>
-    if s.full (needBytes fx t ((nl - prev) * lw)) then userSearch fx s t prev lw f (k + 1) (growLen (k + 1) prev)
+    if s.full (needBytes fx t ((nl - prev) * lw)) then
+      if fx.d10 = true ∧ growLen (k + 1) prev ≤ prev then none
+      else userSearch fx s t prev lw f (k + 1) (growLen (k + 1) prev)
     else some nl
 
 /-- the `while ( !new_mem )` loop of dmemory.c:541-547: `c` mallocs have been issued, `fail c` says
 that the next one returns NULL.  Returns the accepted length and the new malloc count. -/
 def sysSearch (fx : Fixes) (fail : Nat → Bool) (prev : Int) : Nat → Nat → Int → Nat → Option Int × Nat
-  | 0, _, nl, c =>
-    if fx.d10 = true ∧ nl ≤ prev then (none, c)
-    else if fail c = true then (none, c + 1) else (some nl, c + 1)
+  | 0, _, nl, c => if fail c = true then (none, c + 1) else (some nl, c + 1)
   | f+1, k, nl, c =>
-    if fx.d10 = true ∧ nl ≤ prev then (none, c)
-    else if fail c = true then sysSearch fx fail prev f (k + 1) (growLen (k + 1) prev) (c + 1)
+    if fail c = true then
+      if fx.d10 = true ∧ growLen (k + 1) prev ≤ prev then (none, c + 1)
+      else sysSearch fx fail prev f (k + 1) (growLen (k + 1) prev) (c + 1)
     else (some nl, c + 1)
+
+/-- `new_len = alpha * *prev_len` on the first attempt (alpha = 1.5); the repair grows by at least one
+element -/
+def firstLen (fx : Fixes) (prev : Int) : Int :=
+  if fx.d10 = true ∧ growLen 1 prev ≤ prev then prev + 1 else growLen 1 prev
 
 /-- move the regions behind `t` by `extra` bytes and take the space (dmemory.c:597-619) -/
 def shiftAfter (t : MemType) (extra : Int) (s : St) : St :=
@@ -246,7 +257,7 @@ def expand (fx : Fixes) (w : Words) (fail : Nat → Bool) (prevLen : Int) (t : M
       if fail s.mallocs = true then (s1, none)
       else ({ (s1.setOff t (Int.ofNat s.mallocs + 1)).setCap t prevLen with nexp := s.nexp + 1 }, some prevLen)
     else
-      match sysSearch fx fail prevLen 10 1 (growLen 1 prevLen) s.mallocs with
+      match sysSearch fx fail prevLen 10 1 (firstLen fx prevLen) s.mallocs with
       | (none, c) => ({ s with mallocs := c }, none)
       | (some nl, c) =>
         ({ (({ s with mallocs := c }).setOff t (Int.ofNat c)).setCap t nl with nexp := s.nexp + 1 }, some nl)
@@ -254,14 +265,12 @@ def expand (fx : Fixes) (w : Words) (fail : Nat → Bool) (prevLen : Int) (t : M
     let found : Option Int :=
       if keepPrev = true then
         (if s.full (needBytes fx t ((prevLen - prevLen) * lw)) then none else some prevLen)
-      else userSearch fx s t prevLen lw 10 1 (growLen 1 prevLen)
+      else userSearch fx s t prevLen lw 10 1 (firstLen fx prevLen)
     match found with
     | none => (s, none)
     | some nl =>
-      if fx.d10 = true ∧ keepPrev = false ∧ nl ≤ prevLen then (s, none)
-      else
-        let s1 := shiftAfter t ((nl - prevLen) * lw) s
-        ({ s1.setCap t nl with nexp := s.nexp + 1 }, some nl)
+      let s1 := shiftAfter t ((nl - prevLen) * lw) s
+      ({ s1.setCap t nl with nexp := s.nexp + 1 }, some nl)
 
 /-- `dLUMemXpand(jcol, next, mem_type, &maxlen, Glu)` with `maxlen` loaded from `Glu` as every
 caller does.  Returns the new state and the routine's return value (0 or bytes + n). -/
